@@ -434,6 +434,23 @@ def compute_summaries(repo, cg, modules, rounds=6):
             for t in cg.resolve_call(g, c):
                 if t.fq in sites_of:
                     sites_of[t.fq].append((g, c))
+    # parameter freshness of private helpers is the GREATEST fixpoint of "every call site passes a private value": start from
+    # "fresh" and take away what some call site contradicts (helpers that hand their accumulator to one another stay fresh when the
+    # outermost caller made it).  Only for helpers that are mentioned nowhere but in direct calls - otherwise not all call sites are known.
+    mentioned = {}
+    for g in funcs:
+        for n in ast.walk(g.node):
+            if isinstance(n, ast.Name) and isinstance(n.ctx, ast.Load):
+                mentioned[n.id] = mentioned.get(n.id, 0) + 1
+            elif isinstance(n, ast.Attribute) and isinstance(n.ctx, ast.Load):
+                mentioned[n.attr] = mentioned.get(n.attr, 0) + 1
+    optimistic = set()
+    for f in private:
+        ncalls = sum(1 for g, c in sites_of[f.fq])
+        if ncalls and mentioned.get(f.name, 0) == ncalls:
+            optimistic.add(f.fq)
+            gp = f.params()
+            summ.param[f.fq] = {p: FRESH for p in gp[(1 if gp[:1] == ["self"] else 0):]}
     for _ in range(rounds):
         changed = False
         for f in funcs:
@@ -475,6 +492,8 @@ def compute_summaries(repo, cg, modules, rounds=6):
                     v = ga.fr(a, env) if a is not None else FRESH
                     res[p] = v if p not in res else meet(res[p], v)
             res = {p: v for p, v in res.items() if v == FRESH}
+            if f.fq in optimistic:
+                res = {p: v for p, v in res.items() if summ.param.get(f.fq, {}).get(p) == FRESH}      # only ever shrinks
             if res:
                 newp[f.fq] = res
         if newp != summ.param:
